@@ -463,7 +463,7 @@ func bLayers() []bLayer {
 	}
 	wide.Ops = append(wide.Ops, bOp{Kind: "rej", Name: "a.", Qtype: 1}, bOp{Kind: "rej", Name: "b.", Qtype: 1},
 		adv(latency), adv(2*time.Second), adv(21*time.Second), adv(61*time.Second), adv(85*time.Second), bOp{Kind: "jan"})
-	narrow := bLayer{Name: "narrow", DepthQ: 4, DepthT: 5, Ops: []bOp{
+	narrow := bLayer{Name: "narrow", DepthQ: 4, DepthT: 6, Ops: []bOp{
 		ask("a.", 1, "u1"), ask("b.", 1, "u1"), ask("a.", 1, "u2"),
 		{Kind: "ans", Ans: 0}, {Kind: "ans", Ans: 1}, {Kind: "ans", Ans: 2},
 		{Kind: "rej", Name: "a.", Qtype: 1}, adv(latency), adv(21 * time.Second), adv(61 * time.Second), {Kind: "jan"}}}
